@@ -1,4 +1,4 @@
-
+// Enumeration driver of the connection-level fault enumeration (see connfault.go).
 
 package memtpt
 
@@ -144,77 +144,84 @@ func Enumerate(t *testing.T, r *vrep.Result, o EnumOptions) {
 	classes := map[string]struct{}{}
 	idx := 0
 	notReached := 0
+	defer func() { r.Distinct = int64(len(distinct)) }()
 	for _, cfg := range cfgs {
-		// fault-free dry runs: the baseline must succeed, be clean, and count the interception points
-		var dry *Result
-		stable := true
-		for rep := 0; rep < 2; rep++ {
-			cur = fmt.Sprintf("%s dry run %d", cfg, rep)
-			d := RunCase(t, Case{Cfg: cfg, Scenario: "echo", Fault: Fault{Kind: "none"}}, o.Dial)
-			r.Executions++
-			if d.Infra != "" {
-				r.Cap("configuration %s: dry run failed for a harness reason: %s", cfg, d.Infra)
-				dry = nil
-				break
+		for vi, variant := range variants {
+			// fault-free dry runs: the baseline must succeed, be clean, and count the interception points
+			// (per variant: the timing of Accept changes the interleaving of the calls)
+			var dry *Result
+			stable := true
+			reps := 1
+			if vi == 0 {
+				reps = 2 // the second run checks that the sequence of I/O calls is reproducible
 			}
-			if d.OutStage != "ok" || d.InStage != "accepted" || d.Post != "echo-ok" {
-				r.Violate("baseline-failed", fmt.Sprintf("%s: the fault-free scenario did not succeed: out=%s (%s) in=%s post=%s", cfg, d.OutStage, d.OutErr, d.InStage, d.Post), d)
-				dry = nil
-				break
+			for rep := 0; rep < reps; rep++ {
+				cur = fmt.Sprintf("%s%s dry run %d", cfg, variant, rep)
+				d := RunCase(t, Case{Cfg: cfg, Scenario: "echo", Variant: variant, Fault: Fault{Kind: "none"}}, o.Dial)
+				r.Executions++
+				if d.Infra != "" {
+					r.Cap("configuration %s%s: dry run failed for a harness reason: %s", cfg, variant, d.Infra)
+					dry = nil
+					break
+				}
+				if d.OutStage != "ok" || d.InStage != "accepted" || d.Post != "echo-ok" {
+					r.Violate("baseline-failed", fmt.Sprintf("%s%s: the fault-free scenario did not succeed: out=%s (%s) in=%s post=%s", cfg, variant, d.OutStage, d.OutErr, d.InStage, d.Post), d)
+					dry = nil
+					break
+				}
+				for _, v := range d.Vios {
+					r.Violate(v.Key+"/baseline", fmt.Sprintf("%s%s fault-free: %s", cfg, variant, v.Desc), d)
+				}
+				if dry != nil && (dry.Kinds != d.Kinds) {
+					stable = false
+				}
+				dry = d
 			}
-			for _, v := range d.Vios {
-				r.Violate(v.Key+"/baseline", fmt.Sprintf("%s fault-free: %s", cfg, v.Desc), d)
-			}
-			if dry != nil && (dry.Kinds != d.Kinds) {
-				stable = false
-			}
-			dry = d
-		}
-		if dry == nil {
-			continue
-		}
-		r.Outcome(dry.coarse())
-		if shard == 0 {
-			r.Note("%s: dry run: %d raw I/O calls on the outbound end (%s), %d on the inbound end (%s); rcmgr calls out=%v in=%v; gater calls out=%v in=%v; op sequence reproducible=%v",
-				cfg, dry.Ops[0], dry.Kinds[0], dry.Ops[1], dry.Kinds[1], dry.RcCalls[0], dry.RcCalls[1], dry.GaCalls[0], dry.GaCalls[1], stable)
-			dry.Trace = nil
-			r.Sample(dry)
-		}
-		for _, cs := range Cases(cfg, dry, variants, o.ExtraScenarios, o.RawDialFaults) {
-			idx++
-			if idx%nshards != shard {
+			if dry == nil {
 				continue
 			}
-			if time.Now().After(deadline) {
-				r.Cap("deadline reached at case %d (%s)", idx, cs)
-				return
+			r.Outcome(dry.coarse())
+			if shard == 0 && vi == 0 {
+				r.Note("%s: dry run: %d raw I/O calls on the outbound end (%s), %d on the inbound end (%s); rcmgr calls out=%v in=%v; gater calls out=%v in=%v; op sequence reproducible=%v",
+					cfg, dry.Ops[0], dry.Kinds[0], dry.Ops[1], dry.Kinds[1], dry.RcCalls[0], dry.RcCalls[1], dry.GaCalls[0], dry.GaCalls[1], stable)
+				dry.Trace = nil
+				r.Sample(dry)
 			}
-			cur = cs.String()
-			res := RunCase(t, cs, o.Dial)
-			r.Executions++
-			if res.Infra != "" {
-				r.Cap("case %s: harness problem, no verdict: %s", cs, res.Infra)
-				continue
-			}
-			if cs.Fault.Kind != "none" && !res.Fired {
-				notReached++
-				r.Outcome(cs.Scenario + "|" + cs.Fault.Kind + "|fault position not reached")
-			} else {
-				distinct[cs.String()] = struct{}{}
-				classes[res.class()] = struct{}{}
-				r.Outcome(res.coarse())
-			}
-			for _, v := range res.Vios {
-				fmt.Printf("C04-VIO %s  %s  out=%s in=%s post=%s\n", v.Key, cs, res.OutStage, res.InStage, res.Post)
-				r.Violate(v.Key, fmt.Sprintf("%s: %s", cs, v.Desc), res)
-			}
-			if len(res.Vios) == 0 && res.Fired && len(r.Samples) < 6 && idx%97 == shard {
-				res.Trace = nil
-				r.Sample(res)
+			for _, cs := range Cases(cfg, dry, []Variant{variant}, o.ExtraScenarios && vi == 0, o.RawDialFaults) {
+				idx++
+				if idx%nshards != shard {
+					continue
+				}
+				if time.Now().After(deadline) {
+					r.Cap("deadline reached at case %d (%s)", idx, cs)
+					return
+				}
+				cur = cs.String()
+				res := RunCase(t, cs, o.Dial)
+				r.Executions++
+				if res.Infra != "" {
+					r.Cap("case %s: harness problem, no verdict: %s", cs, res.Infra)
+					continue
+				}
+				if cs.Fault.Kind != "none" && !res.Fired {
+					notReached++
+					r.Outcome(cs.Scenario + "|" + cs.Fault.Kind + "|fault position not reached")
+				} else {
+					distinct[cs.String()] = struct{}{}
+					classes[res.class()] = struct{}{}
+					r.Outcome(res.coarse())
+				}
+				for _, v := range res.Vios {
+					fmt.Printf("C04-VIO %s  %s  out=%s in=%s post=%s\n", v.Key, cs, res.OutStage, res.InStage, res.Post)
+					r.Violate(v.Key, fmt.Sprintf("%s: %s", cs, v.Desc), res)
+				}
+				if len(res.Vios) == 0 && res.Fired && len(r.Samples) < 6 && idx%97 == shard {
+					res.Trace = nil
+					r.Sample(res)
+				}
 			}
 		}
 	}
-	r.Distinct = int64(len(distinct))
 	r.Note("cases whose fault position was not reached (counted as executions, not as distinct cases): %d; distinct (configuration, variant, fault kind, end, outbound stage, inbound stage, result) classes in this shard: %d", notReached, len(classes))
 }
 
